@@ -11,7 +11,7 @@ git -C /repo archive HEAD | tar -x -C "$S/repo"
 git -C /verif archive HEAD | tar -x -C "$S/verif"
 [ -d /verif/lean/.lake ] && rsync -a /verif/lean/.lake "$S/verif/lean/"
 cd "$S/verif"
-PROPS=${SWEEP_PROPS:-$(python3 -c "import json;print(' '.join(c['property'] for c in json.load(open('MANIFEST.json'))['checks']))")}
+PROPS=${SWEEP_PROPS:-$(python3 -c "import json;print(' '.join(c['property_id'] for c in json.load(open('MANIFEST.json'))['checks']))")}
 HD_REPO="$S/repo" ./setup.sh > "$S/setup.log" 2>&1 || echo "setup rc=$?"
 run() { p=$1; s=$2; st=$(date +%s)
   out=$(HD_REPO="$S/repo" VERIF_SEED=$s ./check $p --tier $TIER 2>&1); rc=$?
